@@ -42,6 +42,9 @@ def modcovar_marple (X,IP):
     :References: [Marple]_
     """
     Pv = []
+    X = np.asarray(X)
+    if X.dtype.kind in 'iub':
+        X = X.astype(float)   # integer products would wrap around
     N = len(X)
     A = np.zeros(N, dtype=complex)
     D = np.zeros(N, dtype=complex)
